@@ -183,6 +183,12 @@ let direct (variant : int) (max : int) (qs : value list) (ops : value list) (wri
        | OBgRes (Some x, fin) ->
          let ms = show_res x and os = show_obs r in
          if ms <> os then diff (Printf.sprintf "op %d: background call of %d: inner returned model=%s impl=%s" !opno i ms os);
+         (* Head did not say Done: the goroutine enters singleflight.Do before anything else happens
+            (the driver waits until it has either reached its next call or is blocked in Do) *)
+         (match nth_iter !st i with
+          | Some (IMiss m') when mi_phase m' = PBgSf ->
+            let (st'', _) = step !st (OBg (nat_of_int i)) in st := st''
+          | _ -> ());
          let expect =
            if fin then 1
            else (match nth_iter !st i with
